@@ -319,6 +319,11 @@ func shareAuthSignature(sc *SecretConnection, pubKey crypto.PubKey, signature cr
 				return
 			}
 			length := int(binary.LittleEndian.Uint32(lengthBs))
+			if length > dataMaxSize {
+				// the peer is not authenticated yet: never allocate what it announces beyond one frame
+				err2 = errors.New("auth signature message too long")
+				return
+			}
 			// receive body
 			readBuffer := make([]byte, length)
 			_, err2 = sc.Read(readBuffer)
